@@ -20,13 +20,15 @@ from props import c05 as _c05
 ID = 'C19'
 LEVEL = 'exploration'
 RULE = ('Documents of every selectable map with 0..5 data faults, valid and offending values drawn from an alphabet containing '
-        '< > & " \' and blanks, optionally one body segment re-tagged with a hostile id (<b, A&B, "x"), any delimiters, HTML sink '
+        '< > & " \' and blanks, optionally one body segment re-tagged with a hostile id (<b, A&B, "x"), the envelope-level and '
+        'structural damage of the shared workload (stray segments, missing SE/GE/ST, reader errors on envelope lines, id-only '
+        'segments), any delimiters, HTML sink '
         'on. One evaluation = one validation + HTML parse. distinct_nontrivial = distinct (map file, sorted reported (level, code) '
         'multiset, hostile characters present in offending values) keys.')
 ASSUMPTIONS = [
     'the report may only contain the tags/attributes pyx12 emits itself (html head title style link body h1 h3 p div span br a); anything else means input became markup',
     'an error message belongs "next to" its segment when it lies between the previous and the next segment line',
-    'only errors that carry a source line (segment- and element-level errors of located segments) are demanded in the report',
+    'demanded in the report: segment- and element-level errors of located segments (next to their line), element errors of ISA/IEA, GS/GE, ST/SE (next to the segment their message names, not its partner), and segment-level findings the engine files on the interchange (stray segment, reader error on an envelope line); set/group/interchange count and control-number messages are not demanded',
 ]
 COMPONENTS = {
     'real': ['pyx12.error_html.error_html', 'error_handler.err_iter', 'x12n_document'],
